@@ -10,6 +10,9 @@ TITLE = 'Receive path: exact stream framing, and no failure on any delivered byt
 LEAN_TARGETS = ['NdnProofs.Props.C06']
 THEOREMS = [
     'Ndn.C06.frames_concat', 'Ndn.C06.frames_never_partial',
+    # the cut of the stream into reads is in the model (NdnModel/StreamReader.lean): every list of chunks
+    'Ndn.C06.stream_caught_sufficient', 'Ndn.C06.chunks_irrelevant', 'Ndn.C06.chunked_concat',
+    'Ndn.C06.never_partial_chunked', 'Ndn.C06.handed_over_prefix', 'Ndn.C06.trace_chunked', 'Ndn.C06.reset_mid_packet',
     'Ndn.C06.gen_safe', 'Ndn.C06.receive_total', 'Ndn.C06.receive_total_of_safe',
     'Ndn.C06.receive_frame', 'Ndn.C06.receive_preserves_wf', 'Ndn.C06.udp_total',
     # byte-level instantiation (the decoders are the C07 models, no longer black boxes)
@@ -18,9 +21,18 @@ THEOREMS = [
 ]
 PARTIAL = {}
 TRUSTED = [
-    'C06: StreamReader.readexactly(n) returns the next n bytes of the concatenated stream or raises IncompleteReadError '
-    '(the cut of the stream into reads is abstracted in the model; the harness feeds a real asyncio.StreamReader with '
-    'every cut position of short streams and random k-cuts of long ones through the real StreamFace.run)',
+    'C06: asyncio.StreamReader behaves as modelled in NdnModel/StreamReader.lean (CPython streams.py read by hand: '
+    'feed_data appends to the buffer and wakes the waiter, an empty chunk wakes nobody; readexactly(n) raises the exception '
+    'set by the transport, returns b"" for n = 0, returns the first n buffered bytes as soon as there are n, raises '
+    'IncompleteReadError at EOF with fewer, otherwise waits without consuming anything; set_exception makes the pending '
+    'wait raise), and the face task runs to its next suspension between two transport events (asyncio runs the woken task '
+    'before the transport\'s next callback). The cut of the stream into reads is NOT abstracted any more: chunks_irrelevant / '
+    'never_partial_chunked / trace_chunked / reset_mid_packet are proved for every list of chunks. Tie: every stream case '
+    'feeds a real asyncio.StreamReader chunk by chunk (every cut position of short streams, random k-cuts, byte-by-byte, '
+    'empty chunks) through the real StreamFace.run on the virtual loop, settles after each feed and compares the number of '
+    'packets handed over after EACH chunk, the packets, the undelivered remainder and the way the task ended with the '
+    'chunked machine of the model; the except tuple of StreamFace.run is regenerated from the source (ast) into '
+    'lean/NdnGen/C06.lean (streamCaught)',
     'C06: that the byte-level decoders (parse_lp_packet_v2, parse_tl_num, parse_interest, parse_data) raise only '
     '{DecodeError, IndexError, ValueError, struct.error, TypeError} is PROVED for every byte string for the decoder models '
     '(Ndn.Packet.decodePacket over the packet schemas regenerated from the live classes, Ndn.parseTlNum: C07 theorems '
@@ -39,7 +51,7 @@ TRUSTED = [
 ]
 RULE = ('(a) streams of 0..6 packets (types/lengths at the 1/3/5/9-byte TL-number boundaries) plus a proper prefix of '
         'one more, fed to a real StreamReader in chunks (every single cut and sampled/all 2-cuts of streams <= 40 B, random '
-        'k-cuts of longer ones, byte-by-byte) then EOF or a connection reset; Type numbers at the sign/width boundaries of the 5- and 9-byte forms '
+        'k-cuts of longer ones, byte-by-byte, cut sets with repeated positions = empty chunks) then EOF or a connection reset, the hand-over count recorded after every chunk; Type numbers at the sign/width boundaries of the 5- and 9-byte forms '
         '(2^31-1, 2^31, 2^32-1, 2^32, 2^63-1, 2^63, 2^64-1); packets of >= 65536 bytes; garbage streams. (b) per front-end (v2, legacy v1): states with 0..3 '
         'pending Interests (incl. CanBePrefix and implicit-digest ones) and 0..2 handlers; 1..6 packets per case drawn from: '
         'every kind of valid packet (Interest, parameterised+signed Interest, Data, Nack envelope, envelopes with PIT token / '
@@ -350,6 +362,10 @@ def cases(rng, tier):
             cutsets += [[rng.randrange(1, L)] for _ in range(6)]
             for _ in range(6 if quick else 40):
                 cutsets.append(sorted(set(rng.randrange(1, L) for _ in range(rng.randint(2, 7)))))
+        if L >= 2:
+            # repeated cut positions = empty chunks (feed_data(b'') wakes nobody), also before the first / after the last byte
+            i = rng.randrange(1, L)
+            cutsets += [[i, i], [0, i, i, L], sorted(rng.randrange(0, L + 1) for _ in range(rng.randint(3, 8)))]
         for cs in cutsets:
             c = {'k': 'stream', 'pkts': [p.hex() for p in pk], 'partial': partial.hex(), 'cuts': cs}
             if rng.random() < 0.2:
@@ -507,6 +523,19 @@ def _stream_bytes(case):
     return b''.join(bytes.fromhex(p) for p in case['pkts']) + bytes.fromhex(case['partial'])
 
 
+def _chunks(case):
+    """the reads the transport makes: the stream cut at case['cuts'] (a repeated position = an empty chunk)"""
+    s = _stream_bytes(case)
+    out, prev = [], 0
+    for c in case['cuts']:
+        if prev <= c <= len(s):
+            out.append(s[prev:c])
+            prev = c
+    if prev < len(s):
+        out.append(s[prev:])
+    return out
+
+
 def run_stream(case):
     from ndn.transport.stream_face import StreamFace
 
@@ -533,27 +562,37 @@ def run_stream(case):
         hung = False
         try:
             loop.settle(limit=2000)
-            prev = 0
-            for c in list(case['cuts']) + [len(s)]:
-                if c > prev:
-                    face.reader.feed_data(s[prev:c])
-                    loop.settle(limit=2000)
-                    prev = c
+            trace = []               # number of packets the callback has received after each chunk, then after the end
+            for ch in _chunks(case):
+                face.reader.feed_data(ch)
+                loop.settle(limit=2000)
+                trace.append(len(got))
             before_eof = len(got)
             if case.get('end') == 'reset':
                 face.reader.set_exception(ConnectionResetError())
             else:
                 face.reader.feed_eof()
             loop.settle(limit=2000)
+            trace.append(len(got))
         except RuntimeError:
             hung = True
             before_eof = len(got)
-        exc = None
+        exc = raw = None
         if task.done() and not task.cancelled() and task.exception() is not None:
-            exc = cls_name(type(task.exception()).__name__)
+            raw = type(task.exception()).__name__
+            exc = cls_name(raw)
         rem = s[len(b''.join(bytes.fromhex(g[1]) for g in got)):].hex()
+        if raw is not None:
+            status = 'crashed:' + (raw if raw in ('IncompleteReadError', 'ConnectionResetError') else 'Other')
+        elif not task.done():
+            status = 'running'
+        elif not face.running and w.closed >= 1:
+            status = 'shutdown'
+        else:
+            status = 'ended-without-shutdown'
         return {'got': got, 'rem': rem, 'running': bool(face.running), 'closed': w.closed, 'ended': task.done(), 'hung': hung,
-                'exc': exc, 'errors': [list(e) for e in loop.errors], 'before_eof': before_eof}
+                'exc': exc, 'errors': [list(e) for e in loop.errors], 'before_eof': before_eof, 'chunk_trace': trace,
+                'status': status}
     finally:
         loop.shutdown()
 
@@ -861,7 +900,8 @@ def run_turn(case):
 def model_line(case, impl):
     k = case['k']
     if k == 'stream':
-        return 'C06 frames ' + (_stream_bytes(case).hex() or '-')
+        # the chunked machine gets the very cut that was fed to the real StreamReader
+        return 'C06 chunks ' + '|'.join([c.hex() or '-' for c in _chunks(case)] + ['reset' if case.get('end') == 'reset' else 'eof'])
     if k == 'udp':
         return 'C06 udp ' + (case['data'] or '-')
     if k == 'turn':
@@ -896,9 +936,11 @@ def model_obs(answer, case, impl):
     k = case['k']
     if k == 'stream':
         assert answer.startswith('ok '), answer
-        ps, rem = answer[3:].split(' | ')
+        tr, mid, status = answer[3:].split(' ; ')
+        ps, rem = mid.split(' | ')
         pk = [] if ps == '.' else [[int(x.split(':')[0]), '' if x.split(':')[1] == '-' else x.split(':')[1]] for x in ps.split(',')]
-        return {'got': pk, 'rem': '' if rem == '-' else rem}
+        return {'got': pk, 'rem': '' if rem == '-' else rem, 'trace': [] if tr == '.' else [int(x) for x in tr.split(',')],
+                'status': status}
     if k == 'udp':
         return answer
     parts = answer.split(' # ')
@@ -923,7 +965,7 @@ def model_obs(answer, case, impl):
 def impl_obs(impl):
     if 'trace' not in impl:
         if 'running' in impl:      # stream
-            return {'got': impl['got'], 'rem': impl['rem']}
+            return {'got': impl['got'], 'rem': impl['rem'], 'trace': impl['chunk_trace'], 'status': impl['status']}
         if impl['errors']:
             return 'err ' + impl['errors'][0][0]
         return 'ok ' + (str(impl['got'][0][0]) if impl['got'] else 'none')
@@ -1131,9 +1173,14 @@ def finding_key(case, impl, why):
     return w[:70]
 
 
-LEVEL_TEXT = ('Lean 4 theorems over (a) a model of StreamFace.run / read_tl_num_from_stream over an abstract readexactly: exact '
+LEVEL_TEXT = ('Lean 4 theorems over (a) a model of StreamFace.run / read_tl_num_from_stream: exact '
               'framing of every packet sequence followed by any proper prefix of a packet, and partition/never-partial for every '
-              'byte stream; (b) a model of _receive/_on_nack/_on_data/_on_interest of both front-ends over abstract decoder '
+              'byte stream (on the concatenated stream), and a model of asyncio.StreamReader (buffer, eof flag, exception) with '
+              'StreamFace.run as a resumable machine over the transport events feed/eof/set_exception: for EVERY list of chunks '
+              'the machine hands over exactly the framing of the concatenation and shuts down (chunks_irrelevant, chunked_concat), '
+              'after every chunk exactly the complete elements received so far (never_partial_chunked, trace_chunked, '
+              'handed_over_prefix), and an EOF / transport exception at any point hands over nothing more '
+              '(reset_mid_packet); the except tuple of StreamFace.run is generated from the source; (b) a model of _receive/_on_nack/_on_data/_on_interest of both front-ends over abstract decoder '
               'outcomes, with the except tuples, the missing-Fragment guard and the Nack-lookup guard generated from the live '
               'source with ast: reception is total for every combination of decoder outcomes in the raisable set and every '
               'table state, a dropped packet leaves the tables unchanged and uncompleted pending Interests stay pending; and '
@@ -1145,8 +1192,10 @@ LEVEL_TEXT = ('Lean 4 theorems over (a) a model of StreamFace.run / read_tl_num_
               'property oracle is evaluated on the implementation.')
 LEVEL_NOTE = ('Proofs are about the model; model = code is sampled. The set of exception classes of the decoders is proved for '
               'the C07 decoder models (not sampled any more); that those models are the real decoders is C07\'s correspondence '
-              'plus the byte-level comparison made here. Chunking is abstracted by readexactly in the proof and '
-              'exercised exhaustively for short streams by the harness.')
-TECHNIQUE = ('Lean 4 proof (induction over packet lists / fuel, case analysis over generated except tuples closed by decide, '
+              'plus the byte-level comparison made here. Chunking is part of the stream model and proved for every cut; '
+              'that the StreamReader model is asyncio\'s StreamReader is tied per chunk by the harness (hand-over count after '
+              'every feed).')
+TECHNIQUE = ('Lean 4 proof (induction over packet lists / fuel, simulation invariant between the chunked reader machine and '
+             'the framing of the concatenated stream, case analysis over generated except tuples closed by decide, '
              'table invariant) + generated tables from ast + model/implementation correspondence check')
 DESIGN_REF = 'DESIGN.md section 7, C06'
